@@ -68,6 +68,7 @@ fn main() {
     "c18" => props::c18::run(&cfg),
     "c04" => props::c04::run(&cfg),
     "c01" => props::c01::run(&cfg),
+    "c06" => props::c06::run(&cfg),
     _ => {
       eprintln!("unknown property {}", prop);
       std::process::exit(2);
